@@ -55,6 +55,7 @@ type faultWriter struct {
 	failAt    int  // index of the failing call, -1 = never
 	permanent bool // also fail every later call
 	partial   bool // accept half of the bytes of a failing call
+	full      bool // accept all the bytes of a failing call and still report an error (allowed by io.Writer)
 	failed    int
 }
 
@@ -66,6 +67,9 @@ func (w *faultWriter) Write(p []byte) (int, error) {
 		n := 0
 		if w.partial {
 			n = len(p) / 2
+		}
+		if w.full {
+			n = len(p)
 		}
 		w.buf = append(w.buf, p[:n]...)
 		return n, errInjected
@@ -191,6 +195,18 @@ func checkTspCase(c tspCase, rec *Rec) error {
 		for _, vr := range variants {
 			perm := vr[0]
 			for _, partial := range []bool{vr[1]} {
+				if !perm && !partial {
+					// third count variant for transient failures: every byte accepted, error returned all the same
+					fw := &faultWriter{failAt: f, full: true}
+					var ferr error
+					if p := try(func() { ferr = tsp.LIB(fw, n, weights) }); p != nil {
+						return fmt.Errorf("LIB(n=%d) panicked with write #%d failing: %v", n, f, p)
+					}
+					sched++
+					if ferr == nil {
+						return fmt.Errorf("LIB(n=%d) returned nil although write #%d of %d returned an error (with a full byte count)", n, f, W)
+					}
+				}
 				fw := &faultWriter{failAt: f, permanent: perm, partial: partial}
 				var ferr error
 				if p := try(func() { ferr = tsp.LIB(fw, n, weights) }); p != nil {
@@ -246,7 +262,7 @@ func clipInts(a []int) string {
 
 func init() {
 	RegisterRapid("C20_output_and_faults",
-		"rapid generates (n in 0..9 quick / 0..24 thorough, weight table with zero, negative, >= 2^40, int boundary (MinInt64, MaxInt64, ...) and position-dependent entries; about one case in three hundred (thorough: sixty) has n in 31..34 (40), where every write index is still enumerated but with two of the four variants; the weight function flags any call outside 0 <= j < i < n). Per case: the fault-free output is parsed by an independent TSPLIB reader and compared with the table; then the fault space is ENUMERATED COMPLETELY: for every index f of the W Write calls of the fault-free run x {only call f fails, f and all later calls fail} x {0 bytes accepted, half accepted} LIB must return a non-nil error (4*W schedules per case); a fault-free call after all the failing ones must reproduce the first output byte for byte. Non-trivial: n >= 2 (the tabwriter-buffered weight section is non-empty).",
+		"rapid generates (n in 0..9 quick / 0..24 thorough, weight table with zero, negative, >= 2^40, int boundary (MinInt64, MaxInt64, ...) and position-dependent entries; about one case in three hundred (thorough: sixty) has n in 31..34 (40), where every write index is still enumerated but with two of the four variants; the weight function flags any call outside 0 <= j < i < n). Per case: the fault-free output is parsed by an independent TSPLIB reader and compared with the table; then the fault space is ENUMERATED COMPLETELY: for every index f of the W Write calls of the fault-free run x {only call f fails, f and all later calls fail} x {0 bytes accepted, half accepted}, plus {only call f fails, all bytes accepted but an error returned}, LIB must return a non-nil error (5*W schedules per case); a fault-free call after all the failing ones must reproduce the first output byte for byte. Non-trivial: n >= 2 (the tabwriter-buffered weight section is non-empty).",
 		Budget{Checks: 1200, Shards: 1}, Budget{Checks: 3000, Shards: 16}, genTspCase, checkTspCase)
 	RegisterEnum("C20_small_n_exhaustive_faults",
 		"enumeration: every n in 0..12 with the fixed position-coded table w(i,j) = 100*i+j (and its negation), all 4*W fault schedules each; complete for that family.",
